@@ -1,0 +1,37 @@
+//go:build verif
+
+// Contracts for package transaction, read by /verif/govc. Comment-only file.
+package transaction
+
+//@ func uuid.NewString
+//@ trusted "external: github.com/google/uuid.NewString returns a non-empty string"
+//@ pure
+//@ ensures result != ""
+
+//@ func (*Transaction).initializeCache
+//@ requires t != nil
+//@ modifies t.Cache
+//@ ensures_ok t.Cache != nil
+
+// Transact (C02 reply shape, C15 expansion discipline): one result per
+// operation up to and including the first failure, or every result plus one
+// extra error for a commit-time rejection; every insert has a UUID before
+// named UUIDs are expanded, and no operation runs before expansion.
+//@ func (*Transaction).Transact
+//@ requires t != nil && t.Database != nil && len(operations) >= 1
+//@ trace ovsdb.ExpandNamedUUIDs
+//@ at call ovsdb.ExpandNamedUUIDs requires calls("ovsdb.ExpandNamedUUIDs") == 0
+//@ at call ovsdb.ExpandNamedUUIDs requires forall i: int :: 0 <= i && i < len(operations) && operations[i].Op == "insert" ==> operations[i].UUID != ""
+//@ at call transaction.(*Transaction).Insert requires calls("ovsdb.ExpandNamedUUIDs") == 1
+//@ at call transaction.(*Transaction).Select requires calls("ovsdb.ExpandNamedUUIDs") == 1
+//@ at call transaction.(*Transaction).Update requires calls("ovsdb.ExpandNamedUUIDs") == 1
+//@ at call transaction.(*Transaction).Mutate requires calls("ovsdb.ExpandNamedUUIDs") == 1
+//@ at call transaction.(*Transaction).Delete requires calls("ovsdb.ExpandNamedUUIDs") == 1
+//@ at call transaction.(*Transaction).Wait requires calls("ovsdb.ExpandNamedUUIDs") == 1
+//@ ensures ResultShape(result0) && len(result0) >= 1
+//@ ensures len(result0) == len(operations) || len(result0) == len(operations) + 1
+//@ ensures len(result0) == len(operations) + 1 ==> (result0[len(operations)] != nil && result0[len(operations)].Error != "")
+//@ ensures len(result0) == len(operations) + 1 ==> (forall i: int :: 0 <= i && i < len(operations) ==> (result0[i] != nil && result0[i].Error == ""))
+//@ loop 1 invariant forall j: int :: 0 <= j && j <= rangeindex && operations[j].Op == "insert" ==> operations[j].UUID != ""
+//@ loop 2 invariant len(results) == len(operations) && cap(results) >= len(results) && fresh(results)
+//@ loop 2 invariant forall j: int :: 0 <= j && j <= rangeindex ==> (results[j] != nil && results[j] != &r && private(results[j]) && results[j].Error == "")
